@@ -70,7 +70,8 @@ def main():
 
     obl = core.load_obligations().get(prop, {})
     theorems = list(obl.get("theorems", []))
-    module = obl.get("module", "GtirbProofs.Props." + prop)
+    modules = obl.get("modules", ["GtirbProofs.Props." + prop])
+    module = " ".join(modules)
     broken = []
 
     try:
@@ -84,7 +85,7 @@ def main():
             if not ok:
                 core.log(log[-4000:])
                 raise core.HarnessError("model/driver build failed")
-            ok, log = core.lake_build([module])
+            ok, log = core.lake_build(modules)
             if not ok:
                 core.log(log[-4000:])
                 broken += ["build:" + d for d in failing_decls(log)]
@@ -95,7 +96,7 @@ def main():
             hits = core.grep_forbidden()
             if hits:
                 broken += ["forbidden:" + h for h in hits]
-            res, out = core.audit_axioms(theorems, [module])
+            res, out = core.audit_axioms(theorems, modules)
             for t in theorems:
                 ax = res.get(t)
                 if ax is None:
@@ -105,7 +106,7 @@ def main():
                 else:
                     discharged += 1
             if args.tier == "thorough" and not broken:
-                rc, out = core._run(["lake", "env", "leanchecker", module],
+                rc, out = core._run(["lake", "env", "leanchecker"] + modules,
                                     cwd=core.LEAN, timeout=3000)
                 ctx.extra["leanchecker"] = "ok" if rc == 0 else out[-500:]
                 if rc != 0:
